@@ -71,10 +71,37 @@ theorem lwOf_spec (items : List Item) (hpos : ∀ i ∈ items, 0 < i.origRev) (h
         obtain ⟨i, hi, hie⟩ := hm
         exact ⟨i, List.mem_cons_of_mem _ hi, hie.symm⟩
 
+/-- two item lists with the same `origRev`s have the same low-watermark -/
+theorem lwOf_congr (l1 l2 : List Item) (hp1 : ∀ i ∈ l1, 0 < i.origRev) (hq1 : ∀ i ∈ l1, i.inRevQueue = true)
+    (hp2 : ∀ i ∈ l2, 0 < i.origRev) (hq2 : ∀ i ∈ l2, i.inRevQueue = true)
+    (h12 : ∀ i ∈ l1, ∃ j ∈ l2, j.origRev = i.origRev) (h21 : ∀ j ∈ l2, ∃ i ∈ l1, i.origRev = j.origRev) :
+    lwOf l1 = lwOf l2 := by
+  obtain ⟨a1, b1, c1⟩ := lwOf_spec l1 hp1 hq1
+  obtain ⟨a2, b2, c2⟩ := lwOf_spec l2 hp2 hq2
+  by_cases hn : l1 = []
+  · have hn2 : l2 = [] := by
+      cases h2 : l2 with
+      | nil => rfl
+      | cons j js =>
+        obtain ⟨i, hi, _⟩ := h21 j (by rw [h2]; exact List.mem_cons_self ..)
+        rw [hn] at hi; cases hi
+    rw [a1.2 hn, a2.2 hn2]
+  · obtain ⟨i, hi, ei⟩ := c1 hn
+    obtain ⟨i', hi', ei'⟩ := h12 i hi
+    have hn2 : l2 ≠ [] := by intro e; rw [e] at hi'; cases hi'
+    obtain ⟨j, hj, ej⟩ := c2 hn2
+    obtain ⟨j', hj', ej'⟩ := h21 j hj
+    have := b2 i' hi'
+    have := b1 j' hj'
+    omega
+
 /-! ## while the due retries are processed: a failed result stands for a popped item -/
 
+/-- every failed result waiting for its commit stands for a popped item; failed results are for
+    different objects -/
 def RP (v : V) (rs : List Res) : Prop :=
-  ∀ res ∈ rs, res.2.2.2.2 = true → ∃ it ∈ v.items, it.id = res.1.id ∧ it.inQueue = false ∧ it.rev = res.2.2.1
+  (∀ res ∈ rs, res.2.2.2.2 = true → ∃ it ∈ v.items, it.id = res.1.id ∧ it.inQueue = false ∧ it.rev = res.2.2.1 ∧ it.obj = res.2.1) ∧
+  rs.Pairwise (fun a b => a.2.2.2.2 = true → b.2.2.2.2 = true → a.1.id ≠ b.1.id)
 
 theorem mem_single_other {v : V} {i : Item} {X : Nat} (hi : i ∈ v.items) (hne : i.id ≠ X) (o : RObj) (ho : o.id = X) (rev : Nat) (d f : Bool) :
     i ∈ ((v.pop X).single o rev d f).items := by
@@ -94,125 +121,118 @@ theorem rp_retry (r r' : R) (h : Item) (hI : InvL r r.results) (_ : CaughtUp r) 
     (hq : RP r.v r.results) : RP r'.v r'.results := by
   obtain ⟨hit0, hq0, _⟩ := head_spec hh
   have hobj := (hI.itemOK h hit0).1
-  intro res hr hf
-  rw [hres] at hr
-  rw [hv]
-  rcases List.mem_append.1 hr with hr | hr
-  · obtain ⟨it, hit, e1, e2, e3⟩ := hq res hr hf
-    have hne : it.id ≠ h.id := by
+  rw [hv, hres]
+  refine ⟨fun res hr hf => ?_, ?_⟩
+  · rcases List.mem_append.1 hr with hr | hr
+    · obtain ⟨it, hit, e1, e2, e3, e4⟩ := hq.1 res hr hf
+      have hne : it.id ≠ h.id := by
+        intro e
+        have := items_eq_of_id hI hit hit0 e
+        rw [this, hq0] at e2; cases e2
+      exact ⟨it, mem_single_other hit hne h.obj hobj h.rev _ _, e1, e2, e3, e4⟩
+    · unfold resOf at hr
+      cases hdel : h.delete with
+      | true => rw [hdel] at hr; simp at hr
+      | false =>
+        rw [hdel] at hr
+        simp only [Bool.false_eq_true, if_false, List.mem_singleton] at hr
+        rw [hr] at hf
+        simp only at hf
+        rw [hf, single_ut]
+        refine ⟨popItem h.id h, ?_, ?_, ?_, ?_, ?_⟩
+        · simp only [call_items, pop_items, List.mem_map]; exact ⟨h, hit0, rfl⟩
+        · rw [hr]; simp only [popItem_id]; exact hobj.symm
+        · rw [popItem_of_eq rfl]
+        · rw [hr]; simp
+        · rw [hr]; simp
+  · rw [List.pairwise_append]
+    refine ⟨hq.2, ?_, fun a ha b hb hfa _ => ?_⟩
+    · unfold resOf; split <;> simp
+    · obtain ⟨it, hit, e1, e2, _, _⟩ := hq.1 a ha hfa
+      have hbid : b.1.id = h.obj.id := by
+        unfold resOf at hb
+        split at hb
+        · cases hb
+        · simp only [List.mem_singleton] at hb; rw [hb]
+      rw [hbid, hobj, ← e1]
       intro e
       have := items_eq_of_id hI hit hit0 e
       rw [this, hq0] at e2; cases e2
-    exact ⟨it, mem_single_other hit hne h.obj hobj h.rev _ _, e1, e2, e3⟩
-  · unfold resOf at hr
-    cases hdel : h.delete with
-    | true => rw [hdel] at hr; simp at hr
-    | false =>
-      rw [hdel] at hr
-      simp only [Bool.false_eq_true, if_false, List.mem_singleton] at hr
-      rw [hr] at hf
-      simp only at hf
-      rw [hf, single_ut]
-      refine ⟨popItem h.id h, ?_, ?_, ?_, ?_⟩
-      · simp only [call_items, pop_items, List.mem_map]; exact ⟨h, hit0, rfl⟩
-      · rw [hr]; simp only [popItem_id]; exact hobj.symm
-      · rw [popItem_of_eq rfl]
-      · rw [hr]; simp
 
-/-! ## the status commits after the low-watermark was read -/
+theorem rp_nil (v : V) : RP v [] := ⟨fun res hr => (by cases hr), List.Pairwise.nil⟩
 
-/-- the motive of the second status commit, relative to the items `I5`, the table revision `T5`
-    and the low-watermark `lw` of the state the low-watermark was read in -/
-def M2 (lw : Nat) (I5 : List Item) (T5 : Nat) (v : V) (rs : List Res) : Prop :=
-  (∀ it ∈ v.items, lw ≤ it.origRev) ∧ (∀ res ∈ rs, res.2.2.2.2 = true → lw ≤ res.2.2.1) ∧
-  (I5 ≠ [] → v.items ≠ []) ∧ (I5 = [] → v.items = [] ∧ ∀ res ∈ rs, res.2.2.2.2 = false) ∧
-  T5 ≤ v.tableRev ∧ (v.tableRev = T5 → v.items = I5)
+/-! ## the status commits after the low-watermark was read keep every `origRev` -/
 
-theorem m2_drop (lw : Nat) (I5 : List Item) (T5 : Nat) (r : R) (res : Res) (rs : List Res) (_ : InvL r (res :: rs))
-    (_ : ∀ cur ∈ r.objs, cur.id = res.1.id → cur.rev ≠ res.2.2.1) (hq : M2 lw I5 T5 r.v (res :: rs)) : M2 lw I5 T5 r.v rs := by
-  obtain ⟨a, b, c, d, e, f⟩ := hq
-  exact ⟨a, fun x hx => b x (List.mem_cons_of_mem _ hx), c, fun h => ⟨(d h).1, fun x hx => (d h).2 x (List.mem_cons_of_mem _ hx)⟩, e, f⟩
+/-- the motive of the second status commit, relative to the items `I5` of the state the
+    low-watermark was read in: the same `origRev`s -/
+def M2 (I5 : List Item) (v : V) (rs : List Res) : Prop :=
+  (∀ it ∈ v.items, ∃ it5 ∈ I5, it5.origRev = it.origRev) ∧ (∀ it5 ∈ I5, ∃ it ∈ v.items, it.origRev = it5.origRev) ∧ RP v rs
 
-theorem m2_write (lw : Nat) (I5 : List Item) (T5 : Nat) (r r' : R) (res : Res) (rs : List Res) (cur : RObj) (_ : InvL r (res :: rs))
+theorem m2_drop (I5 : List Item) (r : R) (res : Res) (rs : List Res) (_ : InvL r (res :: rs))
+    (_ : ∀ cur ∈ r.objs, cur.id = res.1.id → cur.rev ≠ res.2.2.1) (hq : M2 I5 r.v (res :: rs)) : M2 I5 r.v rs := by
+  obtain ⟨a, b, c, d⟩ := hq
+  exact ⟨a, b, fun x hx => c x (List.mem_cons_of_mem _ hx), (List.pairwise_cons.1 d).2⟩
+
+theorem m2_write (I5 : List Item) (r r' : R) (res : Res) (rs : List Res) (cur : RObj) (hI : InvL r (res :: rs))
     (_ : cur ∈ r.objs) (_ : cur.id = res.1.id) (_ : cur.rev = res.2.2.1) (hv : r'.v = r.v.commit res r.nextSid) (_ : InvL r' rs)
-    (hq : M2 lw I5 T5 r.v (res :: rs)) : M2 lw I5 T5 r'.v rs := by
-  obtain ⟨a, b, c, d, e, f⟩ := hq
+    (hq : M2 I5 r.v (res :: rs)) : M2 I5 r'.v rs := by
+  obtain ⟨a, b, c, d⟩ := hq
+  obtain ⟨horig, _, _⟩ := hI.resOK res (List.mem_cons_self ..)
+  have hpw := List.pairwise_cons.1 d
   rw [hv]
   cases hf : res.2.2.2.2 with
-  | true =>
-    rw [commit_f _ _ _ hf]
-    refine ⟨fun it hit => ?_, fun x hx => b x (List.mem_cons_of_mem _ hx), fun _ => ?_, fun h => ?_, ?_, fun h => ?_⟩
-    · rcases (mem_add_items ..).1 hit with ⟨hm, _⟩ | rfl
-      · exact a it hm
-      · exact b res (List.mem_cons_self ..) hf
-    · intro e0
-      have : mkItem (r.v.setObj { res.1 with kind := .error, sid := r.nextSid }).now (r.v.setObj { res.1 with kind := .error, sid := r.nextSid }).cfg
-          res.2.1 (r.v.tableRev + 1) res.2.2.1 false (prevN (r.v.setObj { res.1 with kind := .error, sid := r.nextSid }).items res.2.1.id + 1) ∈
-          ((r.v.setObj { res.1 with kind := .error, sid := r.nextSid }).add res.2.1 (r.v.tableRev + 1) res.2.2.1 false).items :=
-        (mem_add_items ..).2 (Or.inr rfl)
-      rw [e0] at this; cases this
-    · have := (d h).2 res (List.mem_cons_self ..)
-      rw [hf] at this; cases this
-    · simp only [add_tableRev, setObjV_tableRev]; omega
-    · simp only [add_tableRev, setObjV_tableRev] at h; omega
   | false =>
     rw [commit_s _ _ _ hf]
-    refine ⟨a, fun x hx => b x (List.mem_cons_of_mem _ hx), c, fun h => ⟨(d h).1, fun x hx => (d h).2 x (List.mem_cons_of_mem _ hx)⟩, ?_, fun h => ?_⟩
-    · simp only [setObjV_tableRev]; omega
-    · simp only [setObjV_tableRev] at h; omega
+    exact ⟨a, b, fun x hx => c x (List.mem_cons_of_mem _ hx), hpw.2⟩
+  | true =>
+    rw [commit_f _ _ _ hf]
+    obtain ⟨i, hi, e1, _, _, _⟩ := c res (List.mem_cons_self ..) hf
+    have hid : res.2.1.id = i.id := by omega
+    have hpo : prevO (r.v.setObj { res.1 with kind := .error, sid := r.nextSid }).items res.2.1.id res.2.2.1 = i.origRev := by
+      rw [hid]; exact prevO_of_mem hI.items_pw hi _
+    refine ⟨fun x hx => ?_, fun it5 h5 => ?_, fun x hx hfx => ?_, hpw.2⟩
+    · rcases (mem_add_items ..).1 hx with ⟨hm, _⟩ | e
+      · exact a x hm
+      · rw [e]
+        show ∃ it5 ∈ I5, it5.origRev = prevO _ _ _
+        rw [hpo]; exact a i hi
+    · obtain ⟨x, hx, ex⟩ := b it5 h5
+      by_cases hxi : x.id = res.2.1.id
+      · have : x = i := items_eq_of_id hI hx hi (by omega)
+        refine ⟨_, (mem_add_items ..).2 (Or.inr rfl), ?_⟩
+        show prevO _ _ _ = _
+        rw [hpo, ← this]; exact ex
+      · exact ⟨x, (mem_add_items ..).2 (Or.inl ⟨hx, hxi⟩), ex⟩
+    · obtain ⟨j, hj, f1, f2, f3, f4⟩ := c x (List.mem_cons_of_mem _ hx) hfx
+      have hne := hpw.1 x hx hf hfx
+      exact ⟨j, (mem_add_items ..).2 (Or.inl ⟨hj, by omega⟩), f1, f2, f3, f4⟩
 
-theorem rp_nil (v : V) : RP v [] := by intro res hr; cases hr
-
-/-- **the low-watermark a round reports**, relative to the retry items the round leaves: it is 0
-    exactly when none is left, it is a lower bound of their `origRev`, and it is their least
-    `origRev` whenever the round's status commits did not write (`refreshedAt = tableRev`) -/
-theorem round_lw {r : R} (hr : RInv r) (hx : XL r.v []) (hit : ItLe r) :
-    (r.round.progressLW = 0 ↔ r.round.items = []) ∧ (∀ it ∈ r.round.items, r.round.progressLW ≤ it.origRev) ∧
-    (r.round.refreshedAt = r.round.tableRev → r.round.progressLW = r.round.lowWatermark) := by
+/-- **the low-watermark a round reports is the retry low-watermark of the state it leaves**: it
+    is read before the status commits of the retries, but these keep every item's `origRev` -/
+theorem round_lw {r : R} (hr : RInv r) (hx : XL r.v []) (hit : ItLe r) : r.round.progressLW = r.round.lowWatermark := by
   have h0 := kx_init hr hx hit
   obtain ⟨hI3, hcu3, hK⟩ := round_ind kx_skip kx_upd kx_del hr h0
   have hq3 : QX (roundLast r) (round3 r).v (round3 r).results := ⟨hK.1, hK.2.toTL⟩
-  obtain ⟨hI4, hres4, _, hI5, hQ5, _, _, hcu4⟩ := tail_ind (qx_drop (roundLast r)) (qx_write (roundLast r)) (qx_retry (roundLast r)) hI3 hcu3 hq3
+  obtain ⟨hI4, hres4, _, hI5, hQ5, _, hQ6, hcu4⟩ := tail_ind (qx_drop (roundLast r)) (qx_write (roundLast r)) (qx_retry (roundLast r)) hI3 hcu3 hq3
   have hI4' : InvL (tail4 (round3 r)) (tail4 (round3 r)).results := by rw [hres4]; exact hI4
   have hrp : RP (tail5 (round3 r)).v (tail5 (round3 r)).results :=
     retries_ind rp_retry _ hI4' hcu4 (by rw [hres4]; exact rp_nil _)
-  have hx5 := hQ5.1
-  obtain ⟨s1, s2, s3⟩ := lwOf_spec (tail5 (round3 r)).items (fun i hi => (hx5.items i hi).opos) (fun i hi => (hx5.items i hi).rq)
-  have hm0 : M2 (lwOf (tail5 (round3 r)).items) (tail5 (round3 r)).items (tail5 (round3 r)).tableRev (tail5 (round3 r)).v (tail5 (round3 r)).results := by
-    refine ⟨s2, fun res hres hf => ?_, fun h => h, fun h => ⟨h, fun res hres => ?_⟩, Nat.le_refl _, fun _ => rfl⟩
-    · obtain ⟨it, hit, _, _, e3⟩ := hrp res hres hf
-      have := s2 it hit
-      have := (hx5.items it hit).ole
-      omega
-    · cases hf : res.2.2.2.2 with
-      | false => rfl
-      | true =>
-        obtain ⟨it, hit, _⟩ := hrp res hres hf
-        simp only [v_items] at hit
-        rw [h] at hit; cases hit
-  have hm6 : M2 (lwOf (tail5 (round3 r)).items) (tail5 (round3 r)).items (tail5 (round3 r)).tableRev (tail6 (round3 r)).v [] := by
+  have hm0 : M2 (tail5 (round3 r)).items (tail5 (round3 r)).v (tail5 (round3 r)).results :=
+    ⟨fun it hit => ⟨it, hit, rfl⟩, fun it hit => ⟨it, hit, rfl⟩, hrp⟩
+  have hm6 : M2 (tail5 (round3 r)).items (tail6 (round3 r)).v [] := by
     unfold tail6; rw [commitStatus_v]
-    exact commit_ind (m2_drop _ _ _) (m2_write _ _ _) _ hI5 hm0
-  obtain ⟨a, _, c, d, e, f⟩ := hm6
-  have hlw : r.round.progressLW = lwOf (tail5 (round3 r)).items := rfl
-  have hit : r.round.items = (tail6 (round3 r)).items := rfl
-  rw [hlw, hit]
-  refine ⟨⟨fun h => (d (s1.1 h)).1, fun h => ?_⟩, a, fun hsync => ?_⟩
-  · apply s1.2
-    cases hi : (tail5 (round3 r)).items with
-    | nil => rfl
-    | cons x xs => exact absurd h (c (by rw [hi]; simp))
-  · have ht : r.round.tableRev = (tail6 (round3 r)).tableRev := rfl
-    have hf : r.round.refreshedAt = (tail6 (round3 r)).refreshedAt := rfl
-    obtain ⟨r', hrel, he⟩ := commitStatus_rel (tail5 (round3 r))
-    have hf6 : (tail6 (round3 r)).refreshedAt = (tail5 (round3 r)).refreshedAt := by
-      unfold tail6; rw [he]; exact hrel.refreshedAt
-    have := hI5.tinv.ref_le
-    rw [ht, hf, hf6] at hsync
-    have hteq : (tail6 (round3 r)).v.tableRev = (tail5 (round3 r)).tableRev := by
-      simp only [v_tableRev] at e ⊢; omega
-    have := f hteq
-    simp only [v_items] at this
-    rw [lowWatermark_eq, hit, this]
+    exact commit_ind (m2_drop _) (m2_write _) _ hI5 hm0
+  obtain ⟨a, b, _⟩ := hm6
+  have hx5 := hQ5.1
+  have hx6 := hQ6.1
+  show lwOf (tail5 (round3 r)).items = lwOf (tail6 (round3 r)).items
+  exact lwOf_congr _ _ (fun i hi => (hx5.items i hi).opos) (fun i hi => (hx5.items i hi).rq)
+    (fun i hi => (hx6.items i hi).opos) (fun i hi => (hx6.items i hi).rq) b a
+
+/-- what the low-watermark of a state whose items are well-formed is -/
+theorem lw_spec_of_xl {r : R} (hx : XL r.v []) :
+    (r.lowWatermark = 0 ↔ r.items = []) ∧ (∀ it ∈ r.items, r.lowWatermark ≤ it.origRev) ∧
+    (r.items ≠ [] → ∃ it ∈ r.items, r.lowWatermark = it.origRev) :=
+  lwOf_spec r.items (fun i hi => (hx.items i hi).opos) (fun i hi => (hx.items i hi).rq)
 
 end Sdb.Rec
